@@ -1,4 +1,6 @@
-(** C01 -- extraction of the executable model: W (write an object), R (read a file). *)
+(** C01 -- extraction of the executable model:
+      W <mesh> <xp> <echo> <object tokens...>   write an object  -> OK <hex main> <hex mesh|-> <hex pdat|->
+      R <hex main> <hex mesh|-> <hex pdat|->    read files       -> OK <object tokens...> *)
 From Coq Require Import Ascii String List Bool Arith ZArith NArith.
 From PTBase Require Import Exn PyStr PyNum PyVal Fmt FixedFormat Wire.
 From Gen Require Import GenTables GenSections.
@@ -10,20 +12,39 @@ Definition decode_obj (toks : list str) : res t2d :=
   | Some (NL [n]) => dt2d n
   | _ => Raise ValueError
   end.
-Definition show_file (r : res file) : str :=
-  match r with Ok ls => app (s2l "OK ") (hex_lines ls) | Raise e => app (s2l "RAISE ") (show_exn e) end.
-Definition tabc : ascii := "009"%char.
+Definition dash : str := s2l "-".
+Definition comma : ascii := ","%char.
+Definition opt_hex (o : option file) : str := match o with Some ls => app (s2l "=") (hex_lines ls) | None => dash end.
+Definition opt_unhex (s : str) : option file :=
+  match s with "="%char :: h => Some (unhex_lines [] [] h) | _ => None end.
+Definition show_files (r : res (t2d * files)) : str :=
+  match r with
+  | Ok (_, fs) => app (s2l "OK ") (app (hex_lines (f_main fs)) (tab :: app (opt_hex (f_mesh fs)) (tab :: opt_hex (f_pdat fs))))
+  | Raise e => app (s2l "RAISE ") (show_exn e) end.
+Definition dec_xp (s : str) : option (list str) :=
+  if str_eqb s dash then None
+  else match s with "="%char :: r => Some (match r with [] => [] | _ => split_c comma r end) | _ => None end.
+Definition dec_echo (s : str) : option bool :=
+  if str_eqb s (s2l "1") then Some true else if str_eqb s (s2l "0") then Some false else None.
 Definition run_case (line : str) : str :=
-  match line with
-  | "W"%char :: t :: rest =>
-      match decode_obj (fields rest) with
-      | Ok d => show_file (write_lines d)
-      | Raise _ => s2l "BADOBJ" end
-  | "R"%char :: t :: h =>
-      match read_lines (unhex_lines [] [] h) with
-      | Ok d => app (s2l "OK") (pr (et2d d) [])
-      | Raise e => app (s2l "RAISE ") (show_exn e) end
-  | _ => s2l "BADCASE"
+  match fields line with
+  | k :: rest =>
+      if str_eqb k (s2l "W") then
+        match rest with
+        | m :: x :: e :: toks =>
+            match decode_obj toks with
+            | Ok d => show_files (write_files (mk_wcfg (nat_of_str m) (dec_xp x) (dec_echo e)) d)
+            | Raise _ => s2l "BADOBJ" end
+        | _ => s2l "BADCASE" end
+      else if str_eqb k (s2l "R") then
+        match rest with
+        | [h; m; p] =>
+            match read_files (mk_files (unhex_lines [] [] h) (opt_unhex m) (opt_unhex p)) with
+            | Ok d => app (s2l "OK") (pr (et2d d) [])
+            | Raise e => app (s2l "RAISE ") (show_exn e) end
+        | _ => s2l "BADCASE" end
+      else s2l "BADCASE"
+  | [] => s2l "BADCASE"
   end.
 
 Require Extraction.
